@@ -45,6 +45,11 @@ RetEq(obs, want) ==
        ELSE IF want.kind \in {"ok", "panic", "invalid", "nopath"} THEN TRUE
        ELSE obs.v = want.v
 
+\* nil variant (Go-level nil pointers planted where the value holds empty messages): a view of
+\* such an element is the invalid read-only empty message, so its validity flag is not compared
+RetEqV(obs, want, nv) ==
+    IF nv /\ want.kind = "view" THEN obs.kind = "view" /\ obs.v.len = want.v.len ELSE RetEq(obs, want)
+
 IsEv(name) == l <= Len(Trace) /\ Trace[l].ev = name
 
 New == /\ IsEv("new")
@@ -114,12 +119,12 @@ Op == /\ IsEv("op")
              r == Step(T, rv, e.op, RS)
              obs == IF ReadLike(e.op) THEN rv ELSE FromJ(S, T, e.st)
              ct == IF r.enabled THEN Creates(r.T, e.op) ELSE ""
-             good == r.enabled /\ RetEq(e.ret, r.ret) /\ obs = r.st /\ (ct # "" => e.new = Len(RS))
+             good == r.enabled /\ RetEqV(e.ret, r.ret, e.nv) /\ obs = r.st /\ (ct # "" => e.new = Len(RS))
              RS1 == [RS EXCEPT ![idx].v = obs]
          IN /\ roots' = [roots EXCEPT ![e.side] = IF ct # "" THEN Append(RS1, RootOf(ct, EmptyMsg)) ELSE RS1]
             /\ (IF good THEN TRUE
                 ELSE PrintT("VERDICT " \o ToJson([l |-> l, c |-> e.case, side |-> e.side, op |-> e.op.op, call |-> "",
-                         what |-> IF ~r.enabled THEN "path" ELSE IF ~RetEq(e.ret, r.ret) THEN "ret"
+                         what |-> IF ~r.enabled THEN "path" ELSE IF ~RetEqV(e.ret, r.ret, e.nv) THEN "ret"
                                   ELSE IF obs # r.st THEN "state" ELSE "handle",
                          want |-> r.ret])))
       /\ UNCHANGED <<typ, pre>>
